@@ -203,7 +203,9 @@ class Project:
   """All analysed modules of the repo, with resolution helpers."""
 
   def __init__(self, repo: str = None, include_all: bool = True):
+    global REPO
     self.repo = repo or REPO
+    REPO = self.repo  # Module.relpath is relative to the analysed tree
     self.modules: Dict[str, Module] = {}
     self.funcs: Dict[str, FuncInfo] = {}
     self.classes: Dict[str, ClassInfo] = {}
